@@ -578,6 +578,36 @@ def hCoinFlip2 : Handler
       | .error e => toString e)
   | _ => none
 
+def pPeerLines (s : String) : Option (List (Option Int)) := do
+  let l ← pList s
+  some (l.map fun t => pInt t)
+
+def showPc : Except Err CoinFlip.PcOutcome → String
+  | .ok o => s!"{if o.threw then "throw:runtime_error" else showBool o.result} {showList o.sent}"
+  | .error e => toString e
+
+/-- zk.keypc.prove p q g x p' q' g' h' r c0 hc0 [peer] => 0/1/throw [sent] -/
+def hKeyPcProve : Handler
+  | [p, q, g, x, p', q', g', h', r, c0, hc0, peer] => do
+    let p ← pInt p; let q ← pInt q; let g ← pInt g; let x ← pInt x
+    let p' ← pInt p'; let q' ← pInt q'; let g' ← pInt g'; let h' ← pInt h'
+    let r ← pInt r; let c0 ← pInt c0; let hc0 ← pInt hc0; let peer ← pPeerLines peer
+    some (showPc (do
+      let S ← mkSigmaState p q g 1 x
+      CoinFlip.keyProvePC S ⟨p', q', g', h'⟩ r c0 hc0 peer))
+  | _ => none
+
+/-- zk.keypc.verify kind p q g key p' q' g' h' c1 hc1 [peer] => 0/1/throw [sent] -/
+def hKeyPcVerify : Handler
+  | [kind, p, q, g, key, p', q', g', h', c1, hc1, peer] => do
+    let p ← pInt p; let q ← pInt q; let g ← pInt g; let key ← pInt key
+    let p' ← pInt p'; let q' ← pInt q'; let g' ← pInt g'; let h' ← pInt h'
+    let c1 ← pInt c1; let hc1 ← pInt hc1; let peer ← pPeerLines peer
+    some (showPc (do
+      let S ← mkSigmaState p q g 1 0
+      CoinFlip.keyVerifyPC (pKind kind) S ⟨p', q', g', h'⟩ key c1 hc1 peer))
+  | _ => none
+
 /-! #### point-to-point channels (C13) -/
 
 def hexOfBytes (b : List Nat) : String :=
@@ -720,7 +750,7 @@ def hRoundtrip : Handler
   | _ => some "1"
 
 def handlers : List (String × Handler) := [
-  ("coin.flip2", hCoinFlip2),
+  ("coin.flip2", hCoinFlip2), ("zk.keypc.prove", hKeyPcProve), ("zk.keypc.verify", hKeyPcVerify),
   ("aio.send", hAioSend), ("aio.recv", hAioRecv),
   ("grp.check", hGrpCheck), ("grp.elem", hGrpElem),
   ("io.card.import", hCardImport), ("io.secret.import", hSecretImport),
